@@ -410,6 +410,8 @@ class Interp:
         if isinstance(s, ast.Pass):
             return st
         if isinstance(s, ast.Continue):
+            if getattr(self, "_unroll_continues", None):
+                self._unroll_continues[-1].append(st)       # (an unrolled iteration: the next one starts from here)
             return None
         if isinstance(s, ast.Break):
             for L in reversed(st.loops):
@@ -551,19 +553,33 @@ class Interp:
         if items is not None and 0 < len(items) <= self.MAX_UNROLL and not has_break and not s.orelse:
             cur = st
             has_continue = any(isinstance(n, ast.Continue) for b in s.body for n in _walk_same_loop(b))
+            if not hasattr(self, "_unroll_continues"):
+                self._unroll_continues = []
+            exact = True
             for k, item in enumerate(items):
                 self.bind(s.target, item, frame, cur, s)
                 self._unroll.append(k)
+                self._unroll_continues.append([])
                 try:
                     r = self.exec_block(s.body, frame, cur)
                 finally:
                     self._unroll.pop()
-                if r is None and _always_leaves(s.body):
+                    conts = self._unroll_continues.pop()
+                if r is None and not conts and _always_leaves(s.body):
                     return None          # every path of this iteration returns / raises
                 if r is not None and not has_continue:
                     # what holds at the end of an iteration holds at the start of the next (e.g. "the conversion failed")
                     cur = _State(r.conds, st.loops)
-            return _State(cur.conds, st.loops) if not has_continue else st
+                elif has_continue:
+                    # the next iteration starts where this one fell off its end or said `continue`: with ONE such point its path
+                    # condition carries over (`except ValueError: continue` - the conversion failed), with several nothing does
+                    ends = ([r] if r is not None else []) + conts
+                    if len(ends) == 1:
+                        cur = _State(ends[0].conds, st.loops)
+                    else:
+                        exact = False
+                        cur = st
+            return _State(cur.conds, st.loops) if (not has_continue or exact) else st
         # loop fusion:  for x in (V(y) for y in src if C(y)): S   ==   for y in src: if C(y): x = V(y); S
         inline_comp = isinstance(s.iter, (ast.GeneratorExp, ast.ListComp)) or (
             isinstance(s.iter, ast.Call) and len(s.iter.args) == 1 and isinstance(s.iter.args[0], (ast.GeneratorExp, ast.ListComp)))
@@ -593,7 +609,13 @@ class Interp:
                 lp.carried[v] = (frame.env.get(v), None)
                 frame.env[v] = ("loopvar", v, lp.id)
         self.bind(s.target, elem, frame, inner, s)
-        end = self.exec_block(s.body, frame, inner)
+        if not hasattr(self, "_unroll_continues"):
+            self._unroll_continues = []
+        self._unroll_continues.append([])      # (a `continue` in here belongs to this loop, not to an unrolled one around it)
+        try:
+            end = self.exec_block(s.body, frame, inner)
+        finally:
+            self._unroll_continues.pop()
         for v in carried - targets:
             init = pre.get(v)
             lp.carried[v] = (init, frame.env.get(v) if end is not None else None)
@@ -763,7 +785,13 @@ class Interp:
         c = self.eval(s.test, frame, inner)
         lp.iter = c
         c, flip = strip_not(c)
-        end = self.exec_block(s.body, frame, inner.with_cond(c, not flip))
+        if not hasattr(self, "_unroll_continues"):
+            self._unroll_continues = []
+        self._unroll_continues.append([])
+        try:
+            end = self.exec_block(s.body, frame, inner.with_cond(c, not flip))
+        finally:
+            self._unroll_continues.pop()
         for v in carried:
             lp.carried[v] = (pre.get(v), frame.env.get(v) if end is not None else None)
             frame.env[v] = ("after", v, lp.id)
@@ -1140,6 +1168,17 @@ class Interp:
             a = self._apply(f[2], args, kwargs, simple, n, frame, st.with_cond(f[1], True))
             b = self._apply(f[3], args, kwargs, simple, n, frame, st.with_cond(f[1], False))
             return mk_ifexp(f[1], a, b)
+        # functools.partial(g, a, ..)(b, ..) is g(a, .., b, ..)
+        if f[0] == "call" and f[1] in (("name", "partial"), ("attr", ("name", "functools"), "partial")) and f[2] and simple \
+                and not any(a[0] == "star" for a in f[2]) and not any(k == "**" for k, _ in f[3]):
+            return self._apply(f[2][0], tuple(f[2][1:]) + tuple(args), tuple(f[3]) + tuple(kwargs), simple, n, frame, st)
+        # map(g, xs) / map(g, xs, ys) / itertools.starmap(g, pairs) with a function of the package (a lambda, a closure, a later helper,
+        # a partial of one): the generator (g(x) for x in xs) / (g(x, y) for x, y in zip(xs, ys)) / (g(*p) for p in pairs)
+        if simple and not kwargs and len(args) >= 2 and f in (("name", "map"), ("name", "starmap"), ("attr", ("name", "itertools"), "starmap")) \
+                and self._is_package_callable(args[0], n, frame):
+            r = self._synth_map(f[-1] == "starmap", args[0], args[1:], n, frame, st)
+            if r is not None:
+                return r
         # closures / lambdas
         if f[0] == "lam" and simple and self._call_depth < self.MAX_DEPTH:
             c = self.closures[f[1]]
@@ -1158,6 +1197,24 @@ class Interp:
                 if r is not None:
                     self._event("inline", ("call", ("name", tgt.qualname), given_args, kwargs), r, st, n, frame)
                     return r
+        # a later GENERATOR helper (`def _public_api_names(cls): for n in dir(cls): ... yield n.lower()`): the generator object it
+        # returns, its elements being what it yields (each `yield` an element event of that object, as for a generator expression)
+        if simple and frame.func is not None and self._call_depth < self.MAX_DEPTH:
+            tgt, self_term = self._resolve(n, f, frame)
+            if tgt is not None and tgt.qualname not in self._stack and self.inline(tgt) and not isinstance(tgt.node, ast.Lambda) \
+                    and _is_generator(tgt.node) and not self.atomic_function(tgt) \
+                    and not any(isinstance(x, ast.YieldFrom) for x in walk_no_nested(tgt.node)):
+                given_args = ((self_term,) + args) if self_term is not None else args
+                mark = len(self.events)
+                gen = self._new_obj("genexp", (), n, st)
+                r = self._inline(tgt.node, None, self._module_defaults(tgt), tgt, given_args, kwargs, st, n, tgt)
+                if r is not None:
+                    for k_ in range(mark, len(self.events)):
+                        e_ = self.events[k_]
+                        if e_.kind == "yield" and e_.func == tgt.qualname:
+                            self.events[k_] = Event(e_.seq, "elem", gen, e_.term, e_.conds, e_.loops, e_.node, e_.func, e_.depth)
+                    self._event("inline", ("call", ("name", tgt.qualname), given_args, kwargs), gen, st, n, frame)
+                    return gen
         if f[0] == "name" and f[1] in _CONSTRUCTORS:
             obj = self._new_obj(f[1], args + tuple(("tuple", (const(k), v)) for k, v in kwargs), n, st)
             self._event("call", ("call", f, args, kwargs), obj, st, n, frame)
@@ -1165,6 +1222,44 @@ class Interp:
         term = ("call", f, args, kwargs)
         self._event("call", term, None, st, n, frame)
         return term
+
+    def _is_package_callable(self, g: Term, n: ast.Call, frame: Frame) -> bool:
+        if g[0] == "lam":
+            return True
+        if g[0] == "call" and g[1] in (("name", "partial"), ("attr", ("name", "functools"), "partial")) and g[2]:
+            return self._is_package_callable(g[2][0], n, frame)
+        if g[0] in ("name", "attr") and frame.func is not None:
+            tgt, _s = self._resolve(n, g, frame)
+            return tgt is not None and self.inline(tgt)
+        return False
+
+    def _synth_map(self, star: bool, g: Term, iters: Tuple[Term, ...], n: ast.Call, frame: Frame, st: _State) -> Optional[Term]:
+        if star and len(iters) != 1:
+            return None
+        it = iters[0] if len(iters) == 1 else ("call", ("name", "zip"), tuple(iters), ())
+        fz = self._fusable(it, True)
+        obj = self._new_obj("genexp", (), n, st)
+        if fz is not None:
+            L1, extra, val1 = fz
+            it = self.loops[L1].iter
+        lp = self._new_loop("comp", it, n, st, frame)
+        elem = self.loop_element(it, lp)
+        cur = _State(st.conds, st.loops + (lp.id,))
+        if fz is not None:
+            elem = reloop(val1, L1, lp.id)
+            cur = _State(cur.conds + tuple((reloop(c, L1, lp.id), pol) for c, pol in extra), cur.loops)
+        if star or len(iters) > 1:
+            if elem[0] != "tuple":
+                # (pairs whose shape is not known: g(*pair) stays one opaque call)
+                val = ("call", g, (("star", elem),), ())
+                self._event("elem", obj, val, cur, n, frame)
+                return obj
+            call_args = tuple(elem[1])
+        else:
+            call_args = (elem,)
+        val = self._apply(g, call_args, (), True, n, frame, cur)
+        self._event("elem", obj, val, cur, n, frame)
+        return obj
 
     def _resolve(self, n: ast.Call, f: Term, frame: Frame) -> Tuple[Optional[FuncInfo], Optional[Term]]:
         """Resolve the callee from the TERM (so that aliases and hoisted locals resolve too)."""
